@@ -132,6 +132,14 @@ def run_op(case):
     if w is not None and case["oseed"] % 4 == 0:
         w = rng.integers(0, 5, size=w.shape)            # integer weights (acquisition counts)
         wk += "-int"
+    elif w is not None and case["oseed"] % 4 == 1:
+        # weights with structure: density compensation normalised to mean exactly one
+        # (0.5 / 1.5 alternating), an R = 2 mask scaled by 2, all ones, a 0/1 mask
+        kind_ = (case["oseed"] // 4) % 4
+        flat = np.arange(w.size)
+        w = [0.5 + (flat % 2), 2.0 * (flat % 2 == 0), np.ones(w.size),
+             (flat % 3 != 0) * 1.0][kind_].reshape(w.shape).astype(float)
+        wk += "-struct%d" % kind_
     if coord is not None and case["oseed"] % 3 == 0:
         # history: an operator for ANOTHER trajectory of the same shape was built and used
         # earlier in this process
@@ -212,6 +220,15 @@ def run_op(case):
         if list(Ab.oshape) != list(A0.oshape) or yb.shape != y0.shape:
             return violated(sig, "coil_batch_size=%d gives oshape %s, unbatched %s" % (
                 b, Ab.oshape, A0.oshape), wit, mech="batch-shape")
+        # a second application of the same operator object to other data must not disturb the
+        # k-space the caller still holds from the first one
+        yb_keep = yb.copy()
+        Ab(x * (0.3 - 0.7j))
+        Ab.H(yy * 2)
+        if not np.array_equal(yb, yb_keep):
+            return violated(sig, "coil_batch_size=%d: the k-space returned by the first "
+                            "application changed when the operator was applied again (results "
+                            "share storage)" % b, wit, mech="batch-alias")
         e1 = nrm(yb - y0) / max(nrm(y0), 1e-300)
         e2 = nrm(xb - AHy) / max(nrm(AHy), 1e-300)
         worst = max(worst, e1, e2)
